@@ -3,6 +3,7 @@ condition, incremental z3 solver, obligations."""
 import os
 import subprocess
 import tempfile
+import re
 import time
 
 import z3
@@ -175,6 +176,62 @@ def ground_instances(pc, goal_neg, rounds=2):
                 new.append(z3.substitute_vars(q.body(), *reversed(combo)))
         insts = new
     return plain + insts
+
+
+_DEF = re.compile(r'\(define-fun\s+(\|[^|]*\||\S+)\s+\(\)\s+(String|Int|Bool|Real)\s+(.*)\)\s*$')
+
+
+def _unescape_smt(sv):
+    sv = sv.replace('""', '"')
+    return re.sub(r'\\u\{([0-9a-fA-F]+)\}', lambda m: chr(int(m.group(1), 16)), sv)
+
+
+def _zmodel_from_cvc5(text, assertions):
+    """a z3 model that agrees with cvc5's values of the constants (so that the counterexample can be made concrete
+    and replayed): the constants are pinned and z3 only has to pick the uninterpreted functions; None on failure"""
+    try:
+        consts = {}
+        stack = list(assertions)
+        seen = set()
+        while stack:
+            e = stack.pop()
+            if e.get_id() in seen:
+                continue
+            seen.add(e.get_id())
+            if z3.is_const(e) and e.decl().kind() == z3.Z3_OP_UNINTERPRETED:
+                consts[e.decl().name()] = e
+            stack.extend(e.children())
+        eqs = []
+        for line in text.splitlines():
+            m = _DEF.match(line.strip())
+            if not m:
+                continue
+            nm, sort, val = m.group(1).strip("|"), m.group(2), m.group(3).strip()
+            c = consts.get(nm)
+            if c is None:
+                continue
+            if sort == "String" and val.startswith('"') and c.sort() == z3.StringSort():
+                eqs.append(c == z3.StringVal(_unescape_smt(val[1:-1])))
+            elif sort == "Bool" and val in ("true", "false") and c.sort() == z3.BoolSort():
+                eqs.append(c == z3.BoolVal(val == "true"))
+            elif sort == "Int" and c.sort() == z3.IntSort():
+                v = val.replace("(", "").replace(")", "").replace(" ", "")
+                eqs.append(c == z3.IntVal(int(v)))
+            elif sort == "Real" and c.sort() == z3.RealSort():
+                mm = re.match(r'^\(?(-)?\s*\(?/?\s*(-?[0-9.]+)\s*([0-9.]+)?\)?\)?$', val)
+                if mm and "/" not in val:
+                    eqs.append(c == z3.RealVal(("-" if mm.group(1) else "") + mm.group(2)))
+        s = z3.Solver()
+        s.set("timeout", 5000)
+        for a in assertions:
+            s.add(a)
+        for e in eqs:
+            s.add(e)
+        if s.check() == z3.sat:
+            return s.model()
+    except Exception:       # noqa
+        return None
+    return None
 
 
 class Obligation:
@@ -351,6 +408,8 @@ class PathCtx:
                         try:
                             st2, out2 = self._cvc5_check(self.pc + [neg], VC_TIMEOUT_MS / 1000.0, want_model=True)
                             model = {"cvc5_model": out2[:4000]} if st2 == "sat" else {"cvc5_model": None}
+                            if st2 == "sat":
+                                zmodel = _zmodel_from_cvc5(out2, self.pc + [neg])
                         except Exception:       # noqa
                             model = {"cvc5_model": None}
                 if status:
